@@ -39,6 +39,8 @@ pub struct Monitors {
     /// termination time (ms on the harness clock) of every worker with a time limit
     pub worker_term: BTreeMap<u32, u64>,
     pub now_ms: u64,
+    /// tasks for which the server announced a successful finish (kept after their job was forgotten)
+    finished_evt: BTreeSet<TaskId>,
     /// tasks that existed in a job at the moment its number of failed tasks exceeded max_fails (C14); tasks
     /// submitted into the still-open job later are not "remaining tasks" of that moment
     exceeded: BTreeSet<TaskId>,
@@ -130,6 +132,7 @@ impl Monitors {
                     if !self.finished_ok.iter().any(|(_, t)| t == task_id) {
                         self.fail("c01.outcome_once", "finish-without-successful-run", format!("task {} reported finished but no worker ran it to successful completion", tid(*task_id)));
                     }
+                    self.finished_evt.insert(*task_id);
                     self.outcome(*task_id, "finished");
                 }
                 EventPayload::TaskFailed { task_id, .. } => self.outcome(*task_id, "failed"),
@@ -234,6 +237,8 @@ impl Monitors {
                         .find(|j| j.id == d.job_id().as_num())
                         .and_then(|j| j.tasks.iter().find(|(t, _)| *t == d.job_task_id().as_num()))
                         .map(|(_, s)| *s);
+                    // a forgotten job has no entry any more: then the announced finish decides
+                    let st = st.or(if self.finished_evt.contains(&d) { Some('F') } else { None });
                     if st != Some('F') {
                         self.fail("c03.no_early_start", "started-before-dep-finished", format!("task {} launched on worker {} while its dependency {} is {:?}", tid(l.task), l.worker, tid(d), st));
                     }
